@@ -1,8 +1,8 @@
 (* C07 -- Get responses are consistent snapshots under concurrent transactions.
    Property theorems only (model: Conc/Model.v; the programs are regenerated on every run by tracing the
    running handlers: Conc/Gen_Programs.v). *)
-From Coq Require Import List ZArith.
-From SDC Require Import Conc.Model Conc.Proofs Conc.Gen_Programs.
+From Coq Require Import List ZArith Bool.
+From SDC Require Import Conc.Model Conc.Proofs Conc.Excl_Proofs Conc.Gen_Programs.
 Import ListNotations.
 Open Scope Z_scope.
 
@@ -27,6 +27,52 @@ Proof.
              (conj (proj1 C07_handlers_safe) (conj (proj2 C07_handlers_safe) Hp))).
 Qed.
 Print Assumptions C07_snapshot.
+
+(* the same system in EVERY reachable state (not only when a response is complete): no two threads are inside the
+   MDIB lock together, nor inside the transaction lock *)
+Theorem C07_mutual_exclusion : forall progs v0 sched,
+  Forall (fun p => p = prog_commit \/ In p handler_programs) progs ->
+  let s := run sched (init progs v0) in
+  forall i j thi thj, i <> j -> nth_error (g_threads s) i = Some thi -> nth_error (g_threads s) j = Some thj ->
+    (holds_mdib thi && holds_mdib thj = false) /\ (holds_tr thi && holds_tr thj = false).
+Proof.
+  exact (fun progs v0 sched Hp =>
+           mutual_exclusion_all_schedules prog_commit handler_programs progs v0 sched
+             (conj (proj1 C07_handlers_safe) (conj (proj2 C07_handlers_safe) Hp))).
+Qed.
+Print Assumptions C07_mutual_exclusion.
+
+(* a Get handler between its two reads: what it has read so far IS the content of the current MdibVersion - no
+   commit slips in between reading the content and reading the version - and the pair it ends with agrees *)
+Theorem C07_handler_in_flight : forall progs v0 sched,
+  Forall (fun p => p = prog_commit \/ In p handler_programs) progs ->
+  let s := run sched (init progs v0) in
+  forall i th, nth_error (g_threads s) i = Some th -> t_prog th = reader_prog ->
+    ((t_pc th <= 1)%nat -> t_c th = -1 /\ t_v th = -1) /\
+    (t_pc th = 2%nat -> t_c th = g_ver s /\ t_v th = -1) /\
+    (t_pc th = 3%nat -> t_c th = g_ver s /\ t_v th = g_ver s) /\
+    (t_pc th = 4%nat -> t_c th = t_v th).
+Proof.
+  exact (fun progs v0 sched Hp =>
+           reader_in_flight_all_schedules prog_commit handler_programs progs v0 sched
+             (conj (proj1 C07_handlers_safe) (conj (proj2 C07_handlers_safe) Hp))).
+Qed.
+Print Assumptions C07_handler_in_flight.
+
+(* a committing thread: between its commit and the hand-over of the reports its version is the current one and
+   newer than everything handed to a subscriber so far *)
+Theorem C07_commit_in_flight : forall progs v0 sched,
+  Forall (fun p => p = prog_commit \/ In p handler_programs) progs ->
+  let s := run sched (init progs v0) in
+  forall i th, nth_error (g_threads s) i = Some th -> t_prog th = writer_prog ->
+    t_v th = -1 /\ t_c th = -1 /\
+    (t_pc th = 3%nat -> t_pending th = g_ver s /\ Forall (fun q => q < g_ver s) (g_queue s)).
+Proof.
+  exact (fun progs v0 sched Hp =>
+           writer_in_flight_all_schedules prog_commit handler_programs progs v0 sched
+             (conj (proj1 C07_handlers_safe) (conj (proj2 C07_handlers_safe) Hp))).
+Qed.
+Print Assumptions C07_commit_in_flight.
 
 (* the hypothesis matters: a handler that reads the version after leaving the critical section (the shape of
    GetMdState / GetContextStates before the repair) can answer MdibVersion 1 with the content of version 0 *)
